@@ -1163,6 +1163,9 @@ func (p *parser) typeAliasDecl() ast.Declaration {
 	underlyingStart := p.peek()
 	underlying := p.parseType(false)
 	underlyingEnd := p.previous()
+	if underlying == nil { // already reported by parseType
+		return &ast.BadDecl{Err: p.lastError, Tok: *begin, Mod: p.module}
+	}
 
 	isPublic := p.matchAny(token.OEFFENTLICH)
 	p.consumeSeq(token.AUCH)
@@ -1208,6 +1211,9 @@ func (p *parser) typeDefDecl() ast.Declaration {
 	underlying := p.parseType(false)
 	underlyingEnd := p.previous()
 	underlyingRange := token.NewRange(underlyingStart, underlyingEnd)
+	if underlying == nil { // already reported by parseType
+		return &ast.BadDecl{Err: p.lastError, Tok: *begin, Mod: p.module}
+	}
 
 	if ddptypes.Equal(underlying, ddptypes.VARIABLE) {
 		p.err(ddperror.SEM_BAD_TYPEDEF, underlyingRange, fmt.Sprintf("Es kann kein neuer Typ als '%s' definiert werden", ddptypes.VARIABLE))
